@@ -359,6 +359,10 @@ def _check_before_write(ctx, mod):
             if isinstance(val, ast.Call) and K.is_meth(val, 'get') and \
                     isinstance(K.recv(val), ast.Call):
                 return True         # <admin partition>().get([...])
+            if isinstance(val, ast.Call):
+                # a tiny helper that builds the stand-in anew at every call
+                inner = K.inline_expr_call(ctx.index, pgdef, val)
+                return isinstance(inner, ast.Dict)
             return False
         for ret in rets:
             val = ret.value
